@@ -46,3 +46,7 @@ package table
 //@   requires fbwf(b) && offset < 4611686018427387904
 //@   ensures [miss-only-in-slot] !result ==> (int(offset >> b.baseLg) < b.filtersNum)
 //@   ensures [miss-reason] !result ==> (le32(b.data, b.oOffset + int(offset >> b.baseLg)*4) == le32(b.data, b.oOffset + int(offset >> b.baseLg)*4 + 4) || !fcontains(b.data[int(le32(b.data, b.oOffset + int(offset >> b.baseLg)*4)) : int(le32(b.data, b.oOffset + int(offset >> b.baseLg)*4 + 4))], key))
+
+// call counter used by the write-ordering contracts of package leveldb (C04): table.Writer.Close writes the
+// index block and the footer
+//@ count (*Writer).Close
